@@ -415,7 +415,9 @@ applied to the object as the earlier directions left it.
   `u`, and `r + s ≤ p`.  `insert_request_admissible` derives it from decidable facts.
 * `CallOk n S params nums tol`: every requested direction (`< n`) of the call is admissible, stated
   on the object the call is applied to (the other directions' knot vectors do not change before
-  their turn). -/
+  their turn).  The lists are read with `getD` (a missing entry = nothing requested); that they have exactly one
+  entry per direction – the code raises otherwise, the driver answers `ERR` – is a separate hypothesis of the
+  object-level theorems (`hpl`, `hnl`, `hlen`). -/
 
 /-- **Decidable route to admissibility**: if `u` is equal to or further than `tol` away from every knot
     of the direction, lies in `[U_p, U_n)`, and its number of occurrences plus `r` does not exceed the
@@ -431,9 +433,12 @@ theorem insert_request_admissible (S : Shape K) (dir : ℕ) (u : K) (r : ℕ) (t
     requested direction is admissible the call completes (`R.2 = true`), the result is a well-formed
     surface with the same degrees and the same domain, and the surface point at EVERY parameter pair
     of the domain (ends included; spans by the library's search before and after) is unchanged in
-    every coordinate. -/
+    every coordinate.  `hpl`, `hnl`: `params` and `num` have one entry per parametric direction – the guard of the code
+    ("The length of the num array must be equal to the number of parametric dimensions", `IndexError` on `param[i]`) and
+    of the driver; the model reads missing entries as "nothing requested". -/
 theorem insertKnot_preserves_surface (d : ℕ) (S : Shape K) (hS : SurfWF d S) (params : List (Option K))
-    (nums : List ℕ) (tol : K) (check : Bool) (hreq : CallOk 2 S params nums tol)
+    (nums : List ℕ) (tol : K) (check : Bool) (hpl : params.length = 2) (hnl : nums.length = 2)
+    (hreq : CallOk 2 S params nums tol)
     (R : Shape K × Bool) (hR : insertKnot S params nums tol check = R)
     (u v : K) (hu1 : fnOf (S.kv 0) (S.deg 0) ≤ u) (hu2 : u ≤ fnOf (S.kv 0) (S.size 0))
     (hv1 : fnOf (S.kv 1) (S.deg 1) ≤ v) (hv2 : v ≤ fnOf (S.kv 1) (S.size 1)) (j : ℕ) :
@@ -448,7 +453,8 @@ theorem insertKnot_preserves_surface (d : ℕ) (S : Shape K) (hS : SurfWF d S) (
 
 /-- **One `insert_knot` call on a volume, any subset of the three directions at once.** -/
 theorem insertKnot_preserves_volume (d : ℕ) (S : Shape K) (hS : VolWF d S) (params : List (Option K))
-    (nums : List ℕ) (tol : K) (check : Bool) (hreq : CallOk 3 S params nums tol)
+    (nums : List ℕ) (tol : K) (check : Bool) (hpl : params.length = 3) (hnl : nums.length = 3)
+    (hreq : CallOk 3 S params nums tol)
     (R : Shape K × Bool) (hR : insertKnot S params nums tol check = R)
     (u v w : K) (hu1 : fnOf (S.kv 0) (S.deg 0) ≤ u) (hu2 : u ≤ fnOf (S.kv 0) (S.size 0))
     (hv1 : fnOf (S.kv 1) (S.deg 1) ≤ v) (hv2 : v ≤ fnOf (S.kv 1) (S.size 1))
@@ -469,7 +475,8 @@ theorem insertKnot_preserves_volume (d : ℕ) (S : Shape K) (hS : VolWF d S) (pa
     still a well-formed surface with the same domain and the same points – provided every requested
     direction is either admissible or rejected. -/
 theorem insertKnot_partial_application_surface (d : ℕ) (S : Shape K) (hS : SurfWF d S) (params : List (Option K))
-    (nums : List ℕ) (tol : K) (check : Bool) (hreq : CallOkOrRej 2 S params nums tol check)
+    (nums : List ℕ) (tol : K) (check : Bool) (hpl : params.length = 2) (hnl : nums.length = 2)
+    (hreq : CallOkOrRej 2 S params nums tol check)
     (u v : K) (hu1 : fnOf (S.kv 0) (S.deg 0) ≤ u) (hu2 : u ≤ fnOf (S.kv 0) (S.size 0))
     (hv1 : fnOf (S.kv 1) (S.deg 1) ≤ v) (hv2 : v ≤ fnOf (S.kv 1) (S.size 1)) (j : ℕ) :
     SurfWF d (insertKnot S params nums tol check).1 ∧
@@ -479,7 +486,8 @@ theorem insertKnot_partial_application_surface (d : ℕ) (S : Shape K) (hS : Sur
 
 /-- The same for volumes. -/
 theorem insertKnot_partial_application_volume (d : ℕ) (S : Shape K) (hS : VolWF d S) (params : List (Option K))
-    (nums : List ℕ) (tol : K) (check : Bool) (hreq : CallOkOrRej 3 S params nums tol check)
+    (nums : List ℕ) (tol : K) (check : Bool) (hpl : params.length = 3) (hnl : nums.length = 3)
+    (hreq : CallOkOrRej 3 S params nums tol check)
     (u v w : K) (hu1 : fnOf (S.kv 0) (S.deg 0) ≤ u) (hu2 : u ≤ fnOf (S.kv 0) (S.size 0))
     (hv1 : fnOf (S.kv 1) (S.deg 1) ≤ v) (hv2 : v ≤ fnOf (S.kv 1) (S.size 1))
     (hw1 : fnOf (S.kv 2) (S.deg 2) ≤ w) (hw2 : w ≤ fnOf (S.kv 2) (S.size 2)) (j : ℕ) :
@@ -493,7 +501,8 @@ theorem insertKnot_partial_application_volume (d : ℕ) (S : Shape K) (hS : VolW
     a well-formed surface over the same domain and every surface point is unchanged
     (`surfEval T u v` = `surfacePoint` of `T`'s degrees, knot vectors, sizes and net). -/
 theorem insert_call_sequence_preserves_surface (d : ℕ) (tol : K) (check : Bool)
-    (calls : List (List (Option K) × List ℕ)) (S : Shape K) (hS : SurfWF d S) (hok : CallsOk 2 tol check S calls)
+    (calls : List (List (Option K) × List ℕ)) (S : Shape K) (hS : SurfWF d S)
+    (hlen : ∀ c ∈ calls, c.1.length = 2 ∧ c.2.length = 2) (hok : CallsOk 2 tol check S calls)
     (u v : K) (hu1 : fnOf (S.kv 0) (S.deg 0) ≤ u) (hu2 : u ≤ fnOf (S.kv 0) (S.size 0))
     (hv1 : fnOf (S.kv 1) (S.deg 1) ≤ v) (hv2 : v ≤ fnOf (S.kv 1) (S.size 1)) (j : ℕ) :
     SurfWF d (insertCalls tol check S calls) ∧
@@ -505,7 +514,8 @@ theorem insert_call_sequence_preserves_surface (d : ℕ) (tol : K) (check : Bool
 
 /-- **Any sequence of `insert_knot` calls on a volume.** -/
 theorem insert_call_sequence_preserves_volume (d : ℕ) (tol : K) (check : Bool)
-    (calls : List (List (Option K) × List ℕ)) (S : Shape K) (hS : VolWF d S) (hok : CallsOk 3 tol check S calls)
+    (calls : List (List (Option K) × List ℕ)) (S : Shape K) (hS : VolWF d S)
+    (hlen : ∀ c ∈ calls, c.1.length = 3 ∧ c.2.length = 3) (hok : CallsOk 3 tol check S calls)
     (u v w : K) (hu1 : fnOf (S.kv 0) (S.deg 0) ≤ u) (hu2 : u ≤ fnOf (S.kv 0) (S.size 0))
     (hv1 : fnOf (S.kv 1) (S.deg 1) ≤ v) (hv2 : v ≤ fnOf (S.kv 1) (S.size 1))
     (hw1 : fnOf (S.kv 2) (S.deg 2) ≤ w) (hw2 : w ≤ fnOf (S.kv 2) (S.size 2)) (j : ℕ) :
@@ -539,6 +549,14 @@ example : (insertKnot exSurfQ [some (1/2), some (1/4)] [1, 2] (1/10000000) true)
     (insertKnot exSurfQ [some (1/2), some (1/4)] [1, 2] (1/10000000) true).1.kvs
       = [[0,0,1/2,1,1], [0,0,0,1/4,1/4,1/2,1,1,1]] := by decide +kernel
 
+/-- … the object-level theorem applied with the whole bundle (`params` / `num` have 2 entries by `rfl`; `hreq` is the
+    admissibility shown above), at the parameter pair `(1/3, 1/2)` -/
+example (hreq : CallOk 2 exSurfQ [some (1/2), some (1/4)] [1, 2] (1/10000000)) (j : ℕ) :
+    (surfEval (insertKnot exSurfQ [some (1/2), some (1/4)] [1, 2] (1/10000000) true).1 (1/3) (1/2)).getD j 0
+      = (surfEval exSurfQ (1/3) (1/2)).getD j 0 :=
+  (insertKnot_preserves_surface 3 exSurfQ exSurfQ_wf _ _ _ true rfl rfl hreq _ rfl (1/3) (1/2)
+    (by decide +kernel) (by decide +kernel) (by decide +kernel) (by decide +kernel) j).2.2.2.2.2
+
 /-- a volume call in the directions u and w (v skipped with `None`) is admissible … -/
 example : CallOk 3 exVolQ [some (1/3), none, some (1/2)] [1, 0, 1] (1/10000000) := by
   intro dir hdir u hu hn
@@ -569,9 +587,11 @@ operation computed this way; all of them are run against the real helper / opera
 correspondence check (`rowsins`, `rowsvol … I`).  `isoCol c R` is iso-curve number `c` of a list of rows
 (the `c`-th point of every row). -/
 
-/-- **Every iso-curve of the rows branch is A5.1 of that iso-curve** – for every list of rows (even a
-    ragged one), every column index, all arguments: no hypothesis. -/
-theorem knotInsertionRows_isocurve (c p : ℕ) (U : ℕ → K) (R : List (List (List K))) (u : K) (r s k : ℕ) :
+/-- **Every iso-curve of the rows branch is A5.1 of that iso-curve** – every column index, all arguments.  `hR`
+    (rectangular rows) is the guard of the code / the driver op `rowsins`: the equation holds in the model for ragged
+    rows too (it pads with `[]`), but on ragged rows with a shorter later row the code raises `IndexError`. -/
+theorem knotInsertionRows_isocurve (c p : ℕ) (U : ℕ → K) (R : List (List (List K))) (u : K) (r s k : ℕ)
+    (hR : Rows.RectW (R.headD []).length R) :
     isoCol c (knotInsertionRows p U R u r s k) = knotInsertion p U (isoCol c R) u r s k :=
   Rows.isoCol_knotInsertionRows c p U R u r s k
 
@@ -651,7 +671,10 @@ example : (insertKnotVolRows exVolQ 2 (1/4) 1 (1/10000000) true).map (fun T => (
     insertion requests, a control net `R` of the same size and dimension over the resulting knot vector (in
     which no basis function vanishes on the whole domain, `AllActive`) whose curve has the points of the
     ORIGINAL curve on the half-open domain equals the net A5.1 returned.  This is what makes a
-    specification-level model of an insertion / refinement routine legitimate. -/
+    specification-level model of an insertion / refinement routine legitimate.  The hypothesis `hact : AllActive …`
+    (every basis function of the RESULTING knot vector is non-zero somewhere on the domain; decidable) is part of the
+    statement and is NECESSARY: with a knot of multiplicity `p + 2` a control point is never read and two different
+    nets have the same curve (C06, witness `¬ AllActive 1 4 [0,0,½,½,½,1,1]`). -/
 theorem insert_sequence_net_unique (p d : ℕ) (reqs : List (K × ℕ × ℕ)) (st : List K × List (List K))
     (hwf : CurveWF p d st.1 st.2) (hok : ReqsOk p st reqs) (R : List (List K)) (hR : NetOk d R)
     (hlen : R.length = (reqs.foldl (insStep p) st).2.length)
